@@ -29,7 +29,7 @@ type E2EOpts struct {
 	Offline   bool
 	HTTP      *SynthTransport // serve the repository over the in-process transport instead of the file system
 	LockFile  string
-	BuildDate time.Time
+	BuildDate string // RFC3339, as the CLI flag --build-date ("" = the CLI default)
 	Tags      []string
 	ExtraOpts []build.Option
 }
@@ -81,6 +81,12 @@ func collectDir(dir string, prefix string, out map[string][]byte) {
 
 // e2eBuild runs one build in a scratch directory under $TMPDIR; everything is removed afterwards.
 func e2eBuild(ic types.ImageConfiguration, repo *SRepo, o E2EOpts) E2EOut {
+	return e2eBuildAt(ic, repo, "", o)
+}
+
+// e2eBuildAt: like e2eBuild, but a file repository already materialised at repoDir is used as is
+// (the repository and key paths are written into the image, so they are part of the declared inputs).
+func e2eBuildAt(ic types.ImageConfiguration, repo *SRepo, repoDir string, o E2EOpts) E2EOut {
 	work, err := os.MkdirTemp("", "verif-e2e-")
 	if err != nil {
 		return E2EOut{Err: err}
@@ -89,9 +95,10 @@ func e2eBuild(ic types.ImageConfiguration, repo *SRepo, o E2EOpts) E2EOut {
 	ctx := context.Background()
 	if o.HTTP != nil {
 		ic.Contents.RuntimeRepositories = []string{"https://repo.test"}
-		kp := filepath.Join(work, synthKeyName)
-		os.WriteFile(kp, repo.KeyPEM, 0o644)
-		ic.Contents.Keyring = []string{kp}
+		ic.Contents.Keyring = []string{"https://repo.test/keys/" + synthKeyName}
+	} else if repoDir != "" {
+		ic.Contents.RuntimeRepositories = []string{repoDir}
+		ic.Contents.Keyring = []string{filepath.Join(repoDir, synthKeyName)}
 	} else {
 		rd := filepath.Join(work, "repo")
 		kp := repo.WriteTo(rd)
@@ -102,11 +109,8 @@ func e2eBuild(ic types.ImageConfiguration, repo *SRepo, o E2EOpts) E2EOut {
 	for _, a := range o.Archs {
 		archs = append(archs, types.ParseArchitecture(a))
 	}
-	bd := o.BuildDate
-	if bd.IsZero() {
-		bd = time.Unix(1700000000, 0)
-	}
-	opts := []build.Option{build.WithImageConfiguration(ic), build.WithSourceDateEpoch(bd), build.WithTempDir(filepath.Join(work, "tmp"))}
+	// exactly what the CLI does with its --build-date flag
+	opts := []build.Option{build.WithImageConfiguration(ic), build.WithBuildDate(o.BuildDate), build.WithTempDir(filepath.Join(work, "tmp"))}
 	os.MkdirAll(filepath.Join(work, "tmp"), 0o755)
 	if o.SBOM {
 		opts = append(opts, build.WithSBOMFormats([]string{"spdx"}))
